@@ -114,10 +114,12 @@ func checkAliasPairs(r *Report, p *Prog) {
 		}
 		r.Check(same, rule, cons, p.Pos(ufn.Pos()), fmt.Sprintf("%d shadow fields with identical names, types and tags", len(mfs)), fmt.Sprintf("marshal shadows %v, unmarshal shadows %v", mfs, ufs))
 		am, au := NewAnalysis(p), NewAnalysis(p)
-		fm, fu := am.Ctx(mfn), au.Ctx(ufn)
+		fu := au.Ctx(ufn)
 		fu.ensureConds()
+		// each method with the unexported helpers it is split into (a conversion helper shared by the pair)
+		rgM, rgU := NewRegion(p, mfn, 2), NewRegion(p, ufn, 2)
 		for _, sf := range mfs {
-			// marshal: aux.F <- conversion of recv.F (possibly through a local for pointer shadows)
+			// marshal: aux.F <- conversion of recv.F (possibly through a local for pointer shadows, or a helper's result)
 			okM := false
 			var gotM []string
 			for _, b := range mfn.Blocks {
@@ -130,11 +132,12 @@ func checkAliasPairs(r *Report, p *Prog) {
 					if !ok || fa.X != ssa.Value(mal) || fieldName(fa.X.Type(), fa.Field) != sf.Name {
 						continue
 					}
-					for _, lf := range rootLeaves(st.Val, map[ssa.Value]bool{}) {
-						ap := fm.AP(lf)
-						if al, isA := lf.(*ssa.Alloc); isA {
+					for _, lf := range rgM.Origins(RV{V: st.Val, C: rgM.top}) {
+						lfc := rgM.Ctx(am, lf.C)
+						ap := lfc.AP(lf.V)
+						if al, isA := lf.V.(*ssa.Alloc); isA {
 							if iv := initStore(al); iv != nil {
-								ap = fm.AP(iv)
+								ap = lfc.AP(iv)
 							}
 						}
 						if isRealField(ap, name, sf.Name) {
@@ -148,46 +151,60 @@ func checkAliasPairs(r *Report, p *Prog) {
 			// unmarshal: recv.F <- conversion of aux.F on the success path
 			okU := false
 			why := "the decoded " + sf.Name + " is never copied back into the value"
-			for _, b := range ufn.Blocks {
-				for _, in := range b.Instrs {
-					st, ok := in.(*ssa.Store)
-					if !ok {
-						continue
-					}
-					fa, ok := st.Addr.(*ssa.FieldAddr)
-					if !ok || fieldName(fa.X.Type(), fa.Field) != sf.Name || rootOfAddr(fa.X) != ssa.Value(ufn.Params[0]) {
-						continue
-					}
-					src := false
-					for _, lf := range rootLeaves(st.Val, map[ssa.Value]bool{}) {
-						ap := fu.AP(lf)
-						if al, isA := lf.(*ssa.Alloc); isA {
-							if iv := initStore(al); iv != nil {
-								ap = fu.AP(iv)
-							}
-						}
-						if strings.Contains(ap, "."+sf.Name) && rootOfAddr(unwrapConv(lf)) == ssa.Value(ual) || strings.HasSuffix(ap, fu.AP(ual)+"."+sf.Name) {
-							src = true
-						}
-					}
-					if !src {
-						why = "m." + sf.Name + " is assigned from " + fu.AP(st.Val) + ", not from the decoded shadow field"
-						continue
-					}
-					// on the success path of DecodeElement
-					dec := false
-					for _, nm := range au.B.Support(fu.Cond(b)) {
-						if strings.HasPrefix(nm, "isnil(") && strings.Contains(nm, "DecodeElement#") && fu.Implied(b, au.B.Var(nm)) {
-							dec = true
-						}
-					}
-					if dec {
-						okU = true
-					} else {
-						why = "the copy back is not on the success path of DecodeElement"
+			rgU.Each(func(x RI) {
+				st, ok := x.I.(*ssa.Store)
+				if !ok {
+					return
+				}
+				b := st.Block()
+				fa, ok := st.Addr.(*ssa.FieldAddr)
+				if !ok || fieldName(fa.X.Type(), fa.Field) != sf.Name {
+					return
+				}
+				// the object written is the receiver of UnmarshalXML
+				isRecv := false
+				for _, o := range rgU.Origins(RV{V: rootOfAddr(fa.X), C: x.C}) {
+					if o.V == ssa.Value(ufn.Params[0]) && o.C == rgU.top {
+						isRecv = true
 					}
 				}
-			}
+				if !isRecv {
+					return
+				}
+				xfc := rgU.Ctx(au, x.C)
+				xfc.ensureConds()
+				src := false
+				for _, lf := range rgU.Origins(RV{V: st.Val, C: x.C}) {
+					lfc := rgU.Ctx(au, lf.C)
+					ap := lfc.AP(lf.V)
+					lv := lf.V
+					if al, isA := lv.(*ssa.Alloc); isA {
+						if iv := initStore(al); iv != nil {
+							ap = lfc.AP(iv)
+						}
+					}
+					if lf.C == rgU.top && (strings.Contains(ap, "."+sf.Name) && rootOfAddr(unwrapConv(lv)) == ssa.Value(ual) || strings.HasSuffix(ap, fu.AP(ual)+"."+sf.Name)) {
+						src = true
+					}
+				}
+				if !src {
+					why = "m." + sf.Name + " is assigned from " + xfc.AP(st.Val) + ", not from the decoded shadow field"
+					return
+				}
+				// on the success path of DecodeElement
+				dec := false
+				cnd := xfc.AbsCond(b)
+				for _, nm := range au.B.Support(cnd) {
+					if strings.HasPrefix(nm, "isnil(") && strings.Contains(nm, "DecodeElement#") && au.B.Implies(cnd, au.B.Var(nm)) {
+						dec = true
+					}
+				}
+				if dec {
+					okU = true
+				} else {
+					why = "the copy back is not on the success path of DecodeElement"
+				}
+			})
 			r.Check(okU, rule, fmt.Sprintf("%s.UnmarshalXML: shadow %s copied back", name, sf.Name), p.Pos(ufn.Pos()), "m."+sf.Name+" <- aux."+sf.Name, why)
 		}
 	}
@@ -370,6 +387,18 @@ func checkRelaxedTime(r *Report, p *Prog) {
 			chain := timeChain(v)
 			okA := len(chain) == 2 && chain[1] == "Round(1ms)" && strings.HasPrefix(chain[0], "time.Parse")
 			why := "the stored instant is " + strings.Join(chain, ".") + " (expected time.Parse(...) followed only by Round(Millisecond))"
+			// the layouts may be tried by an unexported helper that hands back what time.Parse returned
+			if !okA && len(chain) == 2 && chain[1] == "Round(1ms)" {
+				if ex, ok := timeChainBase(v).(*ssa.Extract); ok && ex.Index == 0 {
+					if hc, ok := ex.Tuple.(*ssa.Call); ok && hc.Call.StaticCallee() != nil && p.InLibrary(hc.Call.StaticCallee()) && hc.Call.StaticCallee().Pkg == um.Pkg {
+						if whyH := parseHelperOK(p, r, rule, hc.Call.StaticCallee()); whyH == "" {
+							okA = true
+						} else {
+							why = "through " + shortFn(hc.Call.StaticCallee()) + ": " + whyH
+						}
+					}
+				}
+			}
 			if okA {
 				// under err == nil of that very Parse call
 				base := timeChainBase(v)
@@ -389,8 +418,12 @@ func checkRelaxedTime(r *Report, p *Prog) {
 	var layouts []string
 	okL := true
 	whyL := ""
-	parseCalls := methodCallsOn(um, "time.Parse")
-	for _, c := range methodCallsOn(um, "time.ParseInLocation") {
+	var parseCalls, pilCalls []*ssa.Call
+	for _, f := range helperRegion(p, um, 2) {
+		parseCalls = append(parseCalls, methodCallsOn(f, "time.Parse")...)
+		pilCalls = append(pilCalls, methodCallsOn(f, "time.ParseInLocation")...)
+	}
+	for _, c := range pilCalls {
 		// equivalent to time.Parse only for time.UTC
 		isUTC := false
 		if ld, ok := c.Call.Args[2].(*ssa.UnOp); ok {
@@ -470,6 +503,10 @@ func checkRelaxedTime(r *Report, p *Prog) {
 	// Duration: non-matching text rejected
 	du := p.MustFunc("saml", "Duration", "UnmarshalText")
 	a3 := NewAnalysis(p)
+	// the parse may sit in unexported helpers of the package
+	a3.Inline = func(f *ssa.Function) bool {
+		return f.Pkg == du.Pkg && f != du && p.InLibrary(f) && (f.Object() == nil || !f.Object().Exported()) && errIndex(f) >= 0
+	}
 	t := NewTable(r, a3, du)
 	var matchNil string
 	for _, ai := range t.atomsIn() {
@@ -490,6 +527,49 @@ func checkRelaxedTime(r *Report, p *Prog) {
 		}
 		t.Row(rule, "the text does not match the xsd:duration pattern", when)
 	}
+}
+
+// parseHelperOK: every success return (nil error) of the helper hands back, unchanged, the instant a time.Parse /
+// ParseInLocation call of the helper returned, on a path where that call's error is nil; its failure returns carry an
+// error produced by a failed call. Returns "" or the reason.
+func parseHelperOK(p *Prog, r *Report, rule string, h *ssa.Function) string {
+	if errIndex(h) != 1 || len(h.Blocks) == 0 {
+		return "not a (time.Time, error) helper"
+	}
+	a := NewAnalysis(p)
+	fc := a.Ctx(h)
+	fc.ensureConds()
+	r.Fn(p.FnName(h))
+	n := 0
+	for _, ret := range fc.Returns() {
+		ev := Resolve(ret.Results[1])
+		if !isNilConst(ev) {
+			if fc.NonNil(ev) == a.B.True || a.B.Implies(fc.Cond(ret.Block()), fc.NonNil(ev)) {
+				continue
+			}
+			if direct, _ := errLeaves(ev); direct {
+				return "a failure return can carry a nil error"
+			}
+			continue
+		}
+		n++
+		chain := timeChain(ret.Results[0])
+		if len(chain) != 1 || !strings.HasPrefix(chain[0], "time.Parse") {
+			return "a success return hands back " + strings.Join(chain, ".") + ", not what time.Parse returned"
+		}
+		ex, ok := timeChainBase(ret.Results[0]).(*ssa.Extract)
+		if !ok {
+			return "a success return is not the result of a parse call"
+		}
+		nm := "isnil(" + fc.AP(ex.Tuple) + "#1)"
+		if !(a.B.HasVar(nm) && fc.Implied(ret.Block(), a.B.Var(nm))) {
+			return "the parsed value is returned although time.Parse reported an error"
+		}
+	}
+	if n == 0 {
+		return "no success return"
+	}
+	return ""
 }
 
 func isZeroTime(v ssa.Value) bool {
@@ -1554,6 +1634,29 @@ func tableStrings(p *Prog, v ssa.Value) ([]string, bool) {
 					}
 				}
 			}
+		}
+	}
+	if n == 0 {
+		// an array variable: the initialiser stores its elements one by one
+		if _, isArr := derefType(g.Type()).Underlying().(*types.Array); isArr {
+			for _, b := range init.Blocks {
+				for _, in := range b.Instrs {
+					ia, ok := in.(*ssa.IndexAddr)
+					if !ok || ia.X != ssa.Value(g) {
+						continue
+					}
+					for _, r2 := range *ia.Referrers() {
+						if s2, ok := r2.(*ssa.Store); ok && s2.Addr == ssa.Value(ia) {
+							c, ok := constStr(s2.Val)
+							if !ok {
+								return nil, false
+							}
+							out = append(out, c)
+						}
+					}
+				}
+			}
+			return out, len(out) > 0
 		}
 	}
 	return out, n == 1 && len(out) > 0
